@@ -695,6 +695,11 @@ class GenericProcessor(processor.ImportProcessor):
 
         if cmd.from_ is not None:
             self.cache_mgr.reftracker.track_heads_for_ref(cmd.ref, cmd.from_)
+        else:
+            # A reset without 'from' restarts the ref: the next commit on
+            # it without 'from' is a new root, not a child of the last
+            # commit seen on this ref.
+            self.cache_mgr.reftracker.last_ids.pop(cmd.ref, None)
 
     def tag_handler(self, cmd):
         """Process a TagCommand to create a tag.
